@@ -30,6 +30,7 @@ mod vary;
 mod rect;
 mod stats;
 mod meshb;
+mod vecalg;
 
 use std::io::{BufRead, BufWriter, Write};
 
@@ -91,6 +92,7 @@ fn subsystem(name: &str) -> Option<(GenFn, ExecFn)> {
         "rect" => (rect::gen, rect::exec),
         "stats" => (stats::gen, stats::exec),
         "meshb" => (meshb::gen, meshb::exec),
+        "vecalg" => (vecalg::gen, vecalg::exec),
         _ => return None,
     })
 }
